@@ -287,6 +287,20 @@ def run(chk):
         streams = [("corpus", [c for c in pure.corpus_cases(ID) if c.startswith("c11 ") or c == "c11"])] + gen(chk.rng, chk.tier)
         cases, model, impl = octets.run_streams(chk, binary, streams, compare, monitor, nontrivial)
         run_sweeps(chk, binary)
+        # measured distribution: values per type, encoded size of the 7-bit values and of the length prefixes
+        types, sz7, szp = {}, {}, {}
+        for c in cases:
+            for _, typ, v in case_vals(c):
+                types[typ] = types.get(typ, 0) + 1
+                if typ == "v":
+                    k = len(octets.uleb128(v & 0xFFFFFFFF))
+                    sz7[k] = sz7.get(k, 0) + 1
+                elif typ in "BS":
+                    k = len(octets.uleb128(len(v)))
+                    szp[k] = szp.get(k, 0) + 1
+        chk.cov["values_per_type"] = dict(sorted(types.items()))
+        chk.cov["7bit_encoded_size_histogram"] = dict(sorted(sz7.items()))
+        chk.cov["length_prefix_size_histogram"] = dict(sorted(szp.items()))
         # vm_compute cross-check on a sample
         try:
             idx = [k for k, c in enumerate(cases) if len(c) <= 600]
@@ -321,7 +335,7 @@ def replay(chk, path):
     binary = pure.build_pure(chk)
     cases = [x["case"] for x in rep.get("failing_inputs", []) + rep.get("divergences", []) if isinstance(x.get("case"), str) and x["case"].startswith("c11")]
     impl = common.run_impl(binary, cases)
-    model = common.run_model([c if not c.startswith("c11sweep") else "c11" for c in cases])
+    model = octets.run_model_parallel([c if not c.startswith("c11sweep") else "c11" for c in cases], nproc=1)
     bad = 0
     for c, m, i in zip(cases, model, impl):
         mf = monitor(c, i)
